@@ -101,6 +101,23 @@ def set_parents(tree: ast.AST) -> None:
     tree.parent = None  # type: ignore[attr-defined]
 
 
+_LOCAL_NAMES = None
+
+
+def _local_names() -> dict:
+    global _LOCAL_NAMES
+    if _LOCAL_NAMES is None:
+        import json
+
+        p = os.path.join(os.path.dirname(os.path.abspath(__file__)), "localnames.json")
+        try:
+            with open(p) as fh:
+                _LOCAL_NAMES = json.load(fh)
+        except OSError:
+            _LOCAL_NAMES = {}
+    return _LOCAL_NAMES
+
+
 class Model:
     def __init__(self, root: str):
         self.root = os.path.abspath(root)
@@ -136,6 +153,11 @@ class Model:
                     from sa.canon import canonicalise
 
                     tree = canonicalise(tree)  # one spelling for `if not c: A else: B` and `x = E; return x`
+                    ref = _local_names().get(rel)
+                    if ref:
+                        from sa.canon import alpha_normalise
+
+                        alpha_normalise(tree, ref)  # consistently renamed locals get the names the rules know
                     set_parents(tree)
                     self.modules[name] = ModuleInfo(name, path, rel, src, tree, is_pkg)
 
